@@ -602,6 +602,63 @@ def parking_cuts():
     return [(st + d) for st, ln in fr[-2:] for d in (0, 3)]
 
 
+def real_pipe_cases():
+    """PipeStream over REAL kernel pipes (what connect_pipes / connect_subproc use): the peer's end goes away while this side
+    is idle - the kernel then reports a hang-up, possibly WITHOUT 'readable' - and the next serve() must meet the end of the
+    stream, close the side, run the hook once; a pending request must fail with EOFError"""
+    import os as _os
+    from rpyc.core.stream import PipeStream
+    viol = []
+    n = 0
+    for how in ("peer-closes-its-stream", "peer-closes-only-its-writing-end"):
+        for pending in (False, True):
+            n += 1
+            r1, w1 = _os.pipe()
+            r2, w2 = _os.pipe()
+            fa = (_os.fdopen(r1, "rb", 0), _os.fdopen(w2, "wb", 0))
+            fb = (_os.fdopen(r2, "rb", 0), _os.fdopen(w1, "wb", 0))
+            svc = Svc("P")
+            conn = svc._connect(Channel(PipeStream(fa[0], fa[1])), {"sync_request_timeout": 2})
+            peer = PipeStream(fb[0], fb[1])
+            res = conn.async_request(1, "x") if pending else None      # a ping nobody will answer
+            if how == "peer-closes-its-stream":
+                peer.close()
+            else:
+                fb[1].close()
+            outcome = []
+            for _ in range(5):
+                try:
+                    conn.serve(0.2)
+                    outcome.append("returned")
+                except EOFError:
+                    outcome.append("EOFError")
+                    break
+                except Exception as ex:      # noqa
+                    outcome.append(type(ex).__name__)
+                    break
+            tag = "%s:%s" % (how, "pending-request" if pending else "idle")
+            if outcome[-1:] != ["EOFError"] or not conn.closed or svc.disconnects != 1:
+                viol.append(("real-pipe:end-of-stream-not-met:%s" % tag, "serve() -> %r, closed=%s, hook ran %d times" % (outcome, conn.closed, svc.disconnects)))
+            elif pending:
+                try:
+                    res.wait()
+                    viol.append(("real-pipe:pending-request-did-not-fail:%s" % tag, ""))
+                except EOFError:
+                    pass
+                except Exception as ex:     # noqa
+                    viol.append(("real-pipe:pending-request-failed-with-%s:%s" % (type(ex).__name__, tag), ""))
+            for f in fa + fb:
+                try:
+                    f.close()
+                except Exception:
+                    pass
+            try:
+                conn.close()
+            except Exception:
+                pass
+    return n, viol
+
+
 def chunks(xs, n):
     return [xs[i:i + n] for i in range(0, len(xs), n)]
 
@@ -668,6 +725,11 @@ def main(tier, replay_obj=None):
         res.nontrivial(o)
     res.add_sample({"workload": "nested", "cut": ["s2c", "read", 7, "eof"]})
     res.add_sample({"workload": "two-threads-no-timeout", "cut": ["s2c", "write", 0, "EPIPE"]})
+    n, viol = real_pipe_cases()
+    res.evaluations += n
+    res.parts["real-pipes"] = {"cases": n}
+    for sig, text in viol:
+        res.violation(sig, text, {"part": "real-pipes"})
     ex = explore.Explorer(close_race, bound=2, stop_on_violation=True, max_seconds=120)
     ex.explore()
     res.add_explorer("close-race/pb2", ex)
